@@ -17,6 +17,7 @@ fn main() {
     match a.cmd() {
         "random" => random(&a),
         "prog" => progs(&a),
+        "lifecycle" => lifecycle_cmd(&a),
         _ => {
             eprintln!("usage: exec random ...");
             std::process::exit(2)
@@ -181,4 +182,52 @@ fn progs(a: &Args) {
     }
     w.flush().unwrap();
     println!("{}", json!({"programs":n,"events":nev,"dispatches":ndisp}));
+}
+
+/// exec lifecycle ... : random programs (batches nested up to --depth, thread-local systems) ->
+/// setup on worlds with a random subset of the resources pre-existing, (repeated), dispose
+fn lifecycle_cmd(a: &Args) {
+    let seed: u64 = a.num("seed", 1);
+    let count: usize = a.num("count", 40);
+    let out = a.get("out").expect("--out");
+    let mut w = BufWriter::new(File::create(out).unwrap());
+    let mut rng = StdRng::seed_from_u64(seed);
+    let mut base = GenCfg::basic(a.num("nmin", 2), a.num("nmax", 20), a.num("nres", 8));
+    base.p_tl = a.num("ptl", 0.12);
+    base.p_batch = a.num("pbatch", 0.25);
+    base.max_depth = a.num("depth", 3);
+    base.inner_tl = true;
+    #[cfg(feature = "parallel")]
+    let p4 = pool(4);
+    let (mut nsys, mut nev) = (0usize, 0usize);
+    let mut samples = Vec::new();
+    let mut maxdepth = 0;
+    for k in 0..count {
+        let mut cfg = base.clone();
+        cfg.n_res = rng.gen_range(2..=base.n_res.max(2));
+        let prog = gen_prog(&mut rng, &cfg, 0, "");
+        let mut res = Vec::new();
+        prog.resources(&mut res);
+        #[cfg(feature = "parallel")]
+        let p = p4.clone();
+        #[cfg(not(feature = "parallel"))]
+        let p = ();
+        let mut r = record_registration_pool(&prog, Variant::identity(&res), k + 1, 0, false, p);
+        if r.dispatcher.is_some() {
+            // any subset of all mapped resources (also ones nobody accesses) pre-exists
+            let all: Vec<u32> = r.rec.ctx.resmap.keys().copied().collect();
+            let pre: Vec<u32> = all.into_iter().filter(|_| rng.gen_bool(0.4)).collect();
+            let repeat = *[1usize, 1, 2, 3].choose(&mut rng).unwrap();
+            shredh::execx::lifecycle(&mut r, &pre, repeat, rng.gen_bool(0.3));
+        }
+        maxdepth = maxdepth.max(prog.depth());
+        nsys += prog.count_systems();
+        nev += r.rec.events.len();
+        write_events(&mut w, &r.rec.events);
+        if samples.len() < 2 {
+            samples.push(serde_json::to_value(&prog).unwrap());
+        }
+    }
+    w.flush().unwrap();
+    println!("{}", json!({"programs":count,"systems":nsys,"events":nev,"max_batch_depth":maxdepth,"samples":samples}));
 }
